@@ -212,7 +212,7 @@ class World(object):
         from clastic import Application, StaticApplication
         self.tree = tree
         self.prefix = prefix
-        self.roots = ['root', 'root2'] if two_paths else ['root']
+        self.roots = {False: ['root'], True: ['root', 'root2'], 'reversed': ['root2', 'root']}[two_paths]
         s1 = StaticApplication([os.path.join(tree.base, r) for r in self.roots])
         s2 = StaticApplication(tree.fb)
         self.app = Application([(prefix, s1), (prefix, s2)], slash_mode=mode)
@@ -295,6 +295,9 @@ def configs(tier):
         for mode in ('redirect', 'rewrite', 'strict'):
             for two in (False, True):
                 out.append((prefix, mode, two))
+    # the listing order of the search paths is their priority (not their alphabetical order)
+    out.append(('/s', 'redirect', 'reversed'))
+    out.append(('/', 'strict', 'reversed'))
     return out
 
 
